@@ -684,6 +684,223 @@ Section Deps.
     induction bs as [|b r IH]; intros vs; [reflexivity|]. cbn [fold_left]. rewrite IH. apply bias_restore_length.
   Qed.
 
+  (* ---- no error is raised unless a script event interferes ---------------------------------------- *)
+  Definition FSg (b : bias) : Prop :=
+    (b_active b = true /\ b_awake b = false /\ b_rc b = 0) \/
+    (b_active b = true /\ b_awake b = true /\ b_rc b = 1) \/
+    (b_active b = false /\ b_awake b = false /\ b_rc b = 0).
+
+  Lemma wake_self_FSg it (b : bias) : FSg b -> FSg (wake_self it b).
+  Proof.
+    unfold wake_self, enable_awake_self, disable_awake_self, decr_active_self, disable_active_self, enable_active_self, FSg.
+    destruct b as [id tsf vars byp app upd st act rc aw e fs]. cbn.
+    intros [(-> & -> & ->) | [(-> & -> & ->) | (-> & -> & ->)]]; cbn;
+      destruct (1 <? tsf); cbn; auto; destruct (on_schedule it tsf); cbn; auto; destruct fixed; cbn; auto.
+  Qed.
+
+  Lemma wake_bias_TR_err it b vs :
+    TR b (wake_self it b) vs (snd (fst (wake_bias fixed it b vs))) (FSg b -> snd (wake_bias fixed it b vs) = false).
+  Proof.
+    unfold wake_bias, wake_self. destruct (1 <? b_tsf b).
+    2:{ cbn [fst snd]. eapply TR_weaken; [|apply TR_same; [apply same_static_refl | reflexivity]]. auto. }
+    destruct (on_schedule it (b_tsf b)).
+    - destruct (enable_awake_TR b vs) as [F1 F2].
+      destruct (bias_enable_awake b vs) as [b1 vs1]. cbn [fst snd] in *. subst b1.
+      eapply TR_weaken; [|exact F2]. auto.
+    - destruct (fixed && b_active b && negb (b_awake b)) eqn:Ec.
+      + destruct (enable_awake_TR b vs) as [F1 F2].
+        destruct (bias_enable_awake b vs) as [b1 vs1]. cbn [fst snd] in *. subst b1.
+        destruct (disable_awake_TR (enable_awake_self b) vs1) as [G1 G2].
+        destruct (bias_disable_awake (enable_awake_self b) vs1) as [[b2 vs2] e2]. cbn [fst snd] in *. subst b2.
+        eapply TR_weaken; [|eapply TR_trans; [exact F2 | exact G2]].
+        intros [_ Q] F. apply andb_prop in Ec. destruct Ec as [Ec Ew]. apply andb_prop in Ec. destruct Ec as [_ Ea].
+        apply negb_true_iff in Ew.
+        assert (Hrc : b_rc b = 0).
+        { destruct F as [(_ & _ & X) | [(_ & X & _) | (X & _ & _)]]; congruence. }
+        apply Q; unfold enable_awake_self, enable_active_self; rewrite Ew, Ea; destruct b; cbn in *; [reflexivity | lia].
+      + destruct (disable_awake_TR b vs) as [G1 G2].
+        destruct (bias_disable_awake b vs) as [[b2 vs2] e2] eqn:E. cbn [fst snd] in *. subst b2.
+        eapply TR_weaken; [|exact G2].
+        intros Q F. destruct (b_awake b) eqn:Ew.
+        * apply Q; [reflexivity|]. destruct F as [(_ & X & _) | [(_ & _ & X) | (_ & X & _)]]; try congruence. lia.
+        * unfold bias_disable_awake in E. rewrite Ew in E. inversion E. reflexivity.
+  Qed.
+
+  Lemma wake_biases_noerr it r : forall pre vs,
+    VInv (pre ++ r) vs -> Forall FSg r -> snd (wake_biases fixed it r vs) = false.
+  Proof.
+    induction r as [|b r IH]; intros pre vs H HF; [reflexivity|].
+    inversion HF as [|? ? Fb Fr]; subst.
+    cbn [wake_biases].
+    pose proof (wake_bias_TR_err it b vs) as F2.
+    destruct (wake_bias_TR it b vs) as [F1 _].
+    destruct (wake_bias fixed it b vs) as [[b1 vs1] e1]. cbn [fst snd] in *. subst b1.
+    destruct (TR_in_context pre b (wake_self it b) r vs vs1 _ F2 H) as [G P].
+    specialize (IH (pre ++ [wake_self it b]) vs1). rewrite <- app_assoc in IH. cbn [app] in IH.
+    specialize (IH G Fr).
+    destruct (wake_biases fixed it r vs1) as [[r' vs2] e2]. cbn [fst snd] in *.
+    rewrite (P Fb), IH. reflexivity.
+  Qed.
+
+  Lemma wake_var_noerr it r a v : 0 <= r -> VI r a v -> snd (wake_var fixed it v) = false.
+  Proof.
+    destruct v as [tsf act rc aw ap arc x cs fb fba f].
+    unfold VI, wake_var, var_enable_awake, var_disable_awake, var_ref_active, var_decr_active, set_vawake, set_vact. cbn.
+    intros Hr (H1 & H2 & H3 & H4).
+    destruct (1 <? tsf); [|reflexivity].
+    destruct (on_schedule it tsf); [reflexivity|].
+    destruct aw; cbn in *.
+    - rewrite andb_false_r. cbn. destruct (Z.leb_spec rc 0) as [L|L]; [lia|].
+      destruct (rc - 1 =? 0); reflexivity.
+    - rewrite andb_true_r. destruct (fixed && act) eqn:Ec; cbn; [|reflexivity].
+      destruct act; cbn.
+      + destruct (Z.leb_spec (rc + 1) 0) as [L|L]; [lia|]. destruct (rc + 1 - 1 =? 0); reflexivity.
+      + reflexivity.
+  Qed.
+
+  Lemma calc_vars_noerr it vs : forall xs,
+    (forall v, In v vs -> exists r a, 0 <= r /\ VI r a v) -> snd (calc_vars O fixed it vs xs) = false.
+  Proof.
+    induction vs as [|v r IH]; intros xs H; [reflexivity|].
+    cbn [calc_vars].
+    destruct (H v (or_introl eq_refl)) as (r0 & a0 & Hr & Hv).
+    pose proof (wake_var_noerr it r0 a0 v Hr Hv) as E1.
+    destruct (wake_var fixed it v) as [v1 e1]. cbn [snd] in E1. subst e1.
+    specialize (IH (tl xs) (fun v' Hv' => H v' (or_intror Hv'))).
+    destruct (calc_vars O fixed it r (tl xs)) as [r' e2]. cbn [snd] in *. rewrite IH. reflexivity.
+  Qed.
+
+  Lemma add_forces_deps byp t ids : forall fs vs,
+    forall i v', nth_error (fst (add_forces O byp t ids fs vs)) i = Some v' ->
+      exists v, nth_error vs i = Some v /\ same_deps v v'.
+  Proof.
+    induction ids as [|j r IH]; intros fs vs i v' Hi.
+    - cbn in Hi. exists v'. split; [exact Hi | unfold same_deps; tauto].
+    - destruct fs as [|f fs'].
+      + cbn in Hi. exists v'. split; [exact Hi | unfold same_deps; tauto].
+      + cbn [add_forces] in Hi.
+        set (u := fun v : var => if byp then set_vfb v (v_fb v) (nadd O (v_fba v) (nmul O t f))
+                                else set_vfb v (nadd O (v_fb v) (nmul O t f)) (v_fba v)) in *.
+        specialize (IH fs' (upd_nth vs j u) i v').
+        destruct (add_forces O byp t r fs' (upd_nth vs j u)) as [vs2 e2]. cbn [fst] in *.
+        destruct (IH Hi) as (v1 & Hv1 & S1).
+        rewrite upd_nth_nth in Hv1. destruct (Nat.eqb i j).
+        * destruct (nth_error vs i) as [v0|]; [|discriminate]. cbn in Hv1. inversion Hv1; subst v1.
+          exists v0. split; [reflexivity|].
+          unfold same_deps in *. unfold u in S1. destruct byp; destruct v0; cbn in *; tauto.
+        * exists v1. split; assumption.
+  Qed.
+
+  Lemma add_forces_noerr byp t ids : forall fs vs,
+    (forall i v, In i ids -> nth_error vs i = Some v -> v_apply v = true) ->
+    snd (add_forces O byp t ids fs vs) = false.
+  Proof.
+    induction ids as [|j r IH]; intros fs vs H; [reflexivity|].
+    destruct fs as [|f fs']; [reflexivity|].
+    cbn [add_forces].
+    set (u := fun v : var => if byp then set_vfb v (v_fb v) (nadd O (v_fba v) (nmul O t f))
+                            else set_vfb v (nadd O (v_fb v) (nmul O t f)) (v_fba v)).
+    assert (E0 : match nth_error vs j with Some v => negb byp && negb (v_apply v) | None => false end = false).
+    { destruct (nth_error vs j) as [v|] eqn:E; [|reflexivity].
+      rewrite (H j v (or_introl eq_refl) E). apply andb_false_r. }
+    rewrite E0.
+    specialize (IH fs' (upd_nth vs j u)).
+    destruct (add_forces O byp t r fs' (upd_nth vs j u)) as [vs2 e2]. cbn [snd] in *. cbn [orb].
+    apply IH. intros i v Hin Hi. rewrite upd_nth_nth in Hi. destruct (Nat.eqb i j).
+    - destruct (nth_error vs i) as [v0|] eqn:E; [|discriminate]. cbn in Hi. inversion Hi; subst v.
+      pose proof (H i v0 (or_intror Hin) E) as A. unfold u. destruct byp; destruct v0; cbn in *; exact A.
+    - apply (H i v (or_intror Hin) Hi).
+  Qed.
+
+  Lemma arefs_member (bs : list bias) b i : In b bs -> c_app b i <= arefs bs i.
+  Proof.
+    induction bs as [|b0 l IH]; intros H; [destruct H|]. cbn [arefs].
+    destruct H as [->|H].
+    - pose proof (arefs_nonneg l i). lia.
+    - pose proof (c_app_nonneg b0 i). specialize (IH H). lia.
+  Qed.
+
+  Lemma communicate_biases_noerr (bs : list bias) : forall (all : list bias) vs,
+    (forall b, In b bs -> In b all) -> VInv all vs ->
+    snd (communicate_biases O bs vs) = false /\ VInv all (fst (communicate_biases O bs vs)).
+  Proof.
+    induction bs as [|b r IH]; intros all vs Hsub H; [cbn; auto|].
+    cbn [communicate_biases].
+    assert (Hb : snd (communicate_bias O b vs) = false /\ VInv all (fst (communicate_bias O b vs))).
+    { unfold communicate_bias. destruct (b_active b && b_apply b) eqn:Eab.
+      - split.
+        + apply add_forces_noerr. intros i v Hin Hi.
+          destruct (H i v Hi) as (_ & V2 & _ & V4). apply V4. rewrite V2.
+          pose proof (arefs_member all b i (Hsub b (or_introl eq_refl))) as M.
+          unfold c_app in M. rewrite Eab in M.
+          assert (0 < cnt (b_vars b) i)%nat by (unfold cnt; apply count_occ_In; exact Hin). lia.
+        + intros i v' Hi. destruct (add_forces_deps _ _ _ _ _ i v' Hi) as (v & Hv & SD).
+          eapply VI_same_deps; [exact SD | apply H; exact Hv].
+      - cbn [fst snd]. auto. }
+    destruct Hb as [E1 H1].
+    destruct (communicate_bias O b vs) as [vs1 e1]. cbn [fst snd] in *. subst e1.
+    destruct (IH all vs1 (fun b' Hb' => Hsub b' (or_intror Hb')) H1) as [E2 H2].
+    destruct (communicate_biases O r vs1) as [vs2 e2]. cbn [fst snd] in *. subst e2. auto.
+  Qed.
+
+  Lemma bias_update_flags it vs (b : bias) :
+    let b' := bias_update O it vs b in
+    b_active b' = b_active b /\ b_apply b' = b_apply b /\ b_vars b' = b_vars b /\
+    b_awake b' = b_awake b /\ b_rc b' = b_rc b.
+  Proof.
+    cbn zeta. unfold bias_update. destruct (b_active b) eqn:Ea; [|tauto].
+    destruct (b_upd b (b_st b) it (values_of O vs (b_vars b))) as [s' [e fs]].
+    destruct b; cbn in *; tauto.
+  Qed.
+
+  Lemma refs_bias_update it vs (bs : list bias) i :
+    refs (map (bias_update O it vs) bs) i = refs bs i /\ arefs (map (bias_update O it vs) bs) i = arefs bs i.
+  Proof.
+    induction bs as [|b r [IH1 IH2]]; [auto|]. cbn [map refs arefs].
+    destruct (bias_update_flags it vs b) as (A1 & A2 & A3 & _).
+    unfold c_act, c_app. rewrite A1, A2, A3, IH1, IH2. auto.
+  Qed.
+
+  Variable efix : bool.
+
+  (* one calc(): no error, and the biases stay in one of the three regular states *)
+  Lemma calc_noerr it vs (bs : list bias) xs :
+    VInv bs vs -> Forall FSg bs ->
+    snd (fst (calc O fixed efix it vs bs xs)) = false /\
+    VInv (snd (fst (fst (calc O fixed efix it vs bs xs)))) (fst (fst (fst (calc O fixed efix it vs bs xs)))) /\
+    Forall FSg (snd (fst (fst (calc O fixed efix it vs bs xs)))).
+  Proof.
+    intros H HF. unfold calc.
+    destruct (wake_biases_spec it bs [] vs H) as (W1 & W2 & W3).
+    pose proof (wake_biases_noerr it bs [] vs H HF) as W4.
+    destruct (wake_biases fixed it bs vs) as [[bs1 vs1] e1]. cbn [fst snd app] in *. subst bs1 e1.
+    set (bs1 := map (wake_self it) bs) in *.
+    pose proof (VInv_calc_vars it bs1 vs1 xs W2) as C3.
+    assert (C4 : snd (calc_vars O fixed it vs1 xs) = false).
+    { apply calc_vars_noerr. intros v Hv. apply In_nth_error in Hv. destruct Hv as [i Hi].
+      exists (refs bs1 i), (arefs bs1 i). split; [apply refs_nonneg | apply W2; exact Hi]. }
+    destruct (calc_vars O fixed it vs1 xs) as [vs2 e2]. cbn [fst snd] in *. subst e2.
+    set (vs3 := reset_fb O vs2).
+    set (bs2 := map (bias_update O it vs3) bs1).
+    assert (V3 : VInv bs2 vs3).
+    { intros i v Hi. unfold vs3, reset_fb in Hi. rewrite nth_error_map in Hi.
+      destruct (nth_error vs2 i) as [v2|] eqn:E2; [|discriminate]. cbn in Hi. inversion Hi; subst v.
+      destruct (refs_bias_update it vs3 bs1 i) as [Q1 Q2]. fold bs2 in Q1, Q2. rewrite Q1, Q2.
+      eapply VI_same_deps; [apply same_deps_vfb | apply C3; exact E2]. }
+    destruct (communicate_biases_noerr bs2 bs2 vs3 (fun b Hb => Hb) V3) as [E3 V4].
+    destruct (communicate_biases O bs2 vs3) as [vs4 e3]. cbn [fst snd] in *. subst e3.
+    split; [reflexivity|]. split.
+    - intros i v Hi. rewrite nth_error_map in Hi.
+      destruct (nth_error vs4 i) as [v4|] eqn:E4; [|discriminate]. cbn in Hi. inversion Hi; subst v.
+      eapply VI_same_deps; [|apply V4; exact E4].
+      unfold update_force. destruct (v_active v4); apply same_deps_vf.
+    - unfold bs2, bs1. rewrite map_map. apply Forall_map.
+      eapply Forall_impl; [|exact HF]. intros b Fb.
+      pose proof (wake_self_FSg it b Fb) as F1.
+      destruct (bias_update_flags it vs3 (wake_self it b)) as (A1 & _ & _ & A4 & A5).
+      unfold FSg in *. rewrite A1, A4, A5. exact F1.
+  Qed.
+
 End Deps.
 
 (* ================================================================================================== *)
@@ -1943,3 +2160,41 @@ Lemma impulse_premises_sat :
   exists (it0 m n : Z) (len : nat),
     (1 < n)%Z /\ (0 <= it0)%Z /\ (it0 <= m * n)%Z /\ (Z.to_nat (m * n - it0) + Z.to_nat n <= len)%nat.
 Proof. exists 1%Z, 1%Z, 2%Z, 3%nat. cbn. repeat split; auto with zarith. Qed.
+
+(* ---- runs without script events raise no error (every carrier) ------------------------------------- *)
+Section NoError.
+  Context {T : Type} (O : NumOps T) {BS : Type}.
+  Variables fixed efix : bool.
+
+  Definition no_script (evs : list (@event T)) : Prop :=
+    forall id on, ~ In (ESetActive id on) evs.
+
+  Lemma run_noerr evs : forall (m : @mstate T BS),
+    no_script evs -> VInv (m_biases m) (m_vars m) -> Forall FSg (m_biases m) ->
+    Forall (fun o : @out T BS => o_err o = false) (run O fixed efix m evs).
+  Proof.
+    induction evs as [|ev r IH]; intros m Hn H HF; [constructor|].
+    assert (Hn' : no_script r) by (intros id on Hin; apply (Hn id on); right; exact Hin).
+    cbn [run]. destruct ev as [xs|xs|id on]; cbn [mstep].
+    - unfold do_calc.
+      destruct (calc_noerr O fixed efix (if m_first m then m_it m else (m_it m + 1)%Z) (m_vars m) (m_biases m) xs H HF) as (E & V & F).
+      destruct (calc O fixed efix (if m_first m then m_it m else (m_it m + 1)%Z) (m_vars m) (m_biases m) xs) as [[[vs bs] e] en].
+      cbn [fst snd] in *. subst e. cbn [app]. constructor; [reflexivity|]. apply IH; assumption.
+    - unfold do_calc.
+      destruct (calc_noerr O fixed efix (m_it m) (m_vars m) (m_biases m) xs H HF) as (E & V & F).
+      destruct (calc O fixed efix (m_it m) (m_vars m) (m_biases m) xs) as [[[vs bs] e] en].
+      cbn [fst snd] in *. subst e. cbn [app]. constructor; [reflexivity|]. apply IH; assumption.
+    - exfalso. apply (Hn id on). left. reflexivity.
+  Qed.
+
+  Theorem run_cfg_noerr it0 tsfs (cfgs : list (@bias_cfg T BS)) evs :
+    no_script evs -> Forall (fun o : @out T BS => o_err o = false) (run_cfg O fixed efix it0 tsfs cfgs evs).
+  Proof.
+    intros Hn. unfold run_cfg. apply run_noerr; [exact Hn | |].
+    - unfold init. cbn [m_vars m_biases].
+      apply (VInv_init_refs (map (init_bias O) cfgs) [] (map (init_var O) tsfs)).
+      + intros b Hb. apply in_map_iff in Hb. destruct Hb as (c & <- & _). reflexivity.
+      + apply VInv_init_vars.
+    - unfold init. cbn [m_biases]. apply Forall_map. apply Forall_forall. intros c _. left. cbn. auto.
+  Qed.
+End NoError.
